@@ -3,7 +3,10 @@ import json, glob, os
 rows=[]
 for d in sorted(glob.glob('/verif/seeded/*')):
     m=json.load(open(os.path.join(d,'meta.json')))
-    cr=m.get('checks_run',{})
+    cr=dict(m.get('checks_run',{}))
+    fr=m.get('final_run',{})
+    if isinstance(fr,dict) and 'error' not in fr:
+        cr.update(fr)   # the last run against the final checks wins for the properties it covers
     caught=[]
     for p,x in cr.items():
         if isinstance(x,dict) and x.get('exit')==1:
